@@ -53,6 +53,11 @@ func vocabWith(prefix string) []string {
 }
 
 func c18Run(c *Ctx) {
+	if c.Sub("api?").Intn(16) == 3 {
+		// options registered through the public AddOption API in completion
+		apiMiniComplete(c)
+		return
+	}
 	r := c.R
 	opts := flags.Options(flags.PassDoubleDash)
 	// (PassAfterNonOption is not combined with completion here: on the unchanged library completion keeps offering
